@@ -330,7 +330,7 @@ pub fn c15(out: &mut Out) {
         cfg.auth_token_key = Some("secret".to_owned());
         let mut wb = Worterbuch::with_config(cfg.clone());
         let internal = worterbuch_common::INTERNAL_CLIENT_ID;
-        for k in ["r/a", "w/a", "d/a", "x/a"] { wb.set(k.into(), json!("orig"), internal, true).await.expect("set"); }
+        for k in ["r/a", "w/a", "d/a", "x/a", "r/a/", "w/"] { wb.set(k.into(), json!("orig"), internal, true).await.expect("set"); }
         let api = spawn_core(wb, cfg.clone());
         let mut problems: Vec<Value> = vec![];
         let far = 4102444800u64; // 2100-01-01
@@ -379,12 +379,34 @@ pub fn c15(out: &mut Out) {
                 problems.push(json!({"request": line, "problem": "request outside the grant must be answered with exactly one authorization error (14) and nothing else", "received": format!("{msgs:?}")}));
             }
         }
+        // 4. a token without a `delete` member (write grants only) and keys that differ from a granted key by a trailing empty segment
+        let tok2 = token("secret", json!({"sub": "s2", "name": "n2", "exp": far, "worterbuchPrivileges": {"read": ["r/a", "r/?"], "write": ["w/#", "w"]}}));
+        let mut s2 = Session::open(&api, "user2", 0x401, true).await;
+        let (_o, m) = s2.request(&json!({"authorizationRequest": {"authToken": tok2}}).to_string()).await;
+        if !m.iter().any(|x| x.0 == "authorized") { problems.push(json!({"problem": "valid token (no delete member) refused", "received": format!("{m:?}")})); }
+        let reqs2: Vec<(Value, bool)> = vec![
+            (json!({"get": {"transactionId": 40, "key": "r/a"}}), true), (json!({"get": {"transactionId": 41, "key": "r/a/"}}), false),
+            (json!({"pGet": {"transactionId": 42, "requestPattern": "r/a/"}}), false), (json!({"pGet": {"transactionId": 43, "requestPattern": "r/?/"}}), false),
+            (json!({"delete": {"transactionId": 44, "key": "w/a"}}), false), (json!({"pDelete": {"transactionId": 45, "requestPattern": "w/#"}}), false),
+            (json!({"set": {"transactionId": 46, "key": "w/", "value": "new"}}), true), (json!({"set": {"transactionId": 47, "key": "r/a/", "value": "new"}}), false),
+            (json!({"subscribe": {"transactionId": 48, "key": "r/a/", "unique": false}}), false), (json!({"ls": {"transactionId": 49, "parent": "r/a/"}}), false),
+        ];
+        for (line, granted) in &reqs2 {
+            let tid = line.as_object().and_then(|o| o.values().next()).and_then(|b| b["transactionId"].as_u64()).unwrap_or(0);
+            let (_o, msgs) = s2.request(&line.to_string()).await;
+            let errs: Vec<_> = msgs.iter().filter(|m| m.1 == Some(tid) && m.0 == "err").collect();
+            let served = msgs.iter().any(|m| m.1 == Some(tid) && m.0 != "err");
+            if *granted && !served { problems.push(json!({"request": line, "token": "read r/a r/?, write w/# w, no delete member", "problem": "granted request refused", "received": format!("{msgs:?}")})); }
+            if !*granted && (served || errs.len() != 1 || errs[0].2 != Some(14)) {
+                problems.push(json!({"request": line, "token": "read r/a r/?, write w/# w, no delete member", "problem": "request outside the grant must be answered with exactly one authorization error (14) and nothing else", "received": format!("{msgs:?}")}));
+            }
+        }
         // no effect of the refused requests
-        for (k, want) in [("r/a", Some("orig")), ("x/a", Some("orig")), ("w/a", Some("new")), ("d/a", None)] {
+        for (k, want) in [("r/a", Some("orig")), ("x/a", Some("orig")), ("w/a", Some("new")), ("d/a", None), ("r/a/", Some("orig")), ("w/", Some("new"))] {
             let got = api.get(k.to_owned()).await.ok();
             if got != want.map(|w| json!(w)) { problems.push(json!({"key": k, "problem": "store content after the session", "got": format!("{got:?}"), "want": want})); }
         }
-        (problems, reqs.len() + 5)
+        (problems, reqs.len() + reqs2.len() + 6)
     })));
     match r {
         Err(_) => out.report("C15/authorization scenarios do not panic", Some("UNLISTED"), json!({})),
@@ -392,7 +414,7 @@ pub fn c15(out: &mut Out) {
             out.report("C15/with authorization on, a request is served only after a valid token and only within its grants; refusals have no effect", Some("UNLISTED"), p);
         } },
     }
-    out.bounded("C15/end-to-end authorization through the real dispatcher (real Proto + core task, HS256 tokens)", "3 anonymous requests, forged and expired token, 22 requests against a read r/#, write w/#, delete d/# grant", n, n);
+    out.bounded("C15/end-to-end authorization through the real dispatcher (real Proto + core task, HS256 tokens)", "3 anonymous requests, forged and expired token, 22 requests against a read r/#, write w/#, delete d/# grant, 10 requests against a token without delete member incl. keys with a trailing empty segment", n, n);
     let _ = BTreeMap::<u8, u8>::new();
 }
 
